@@ -166,14 +166,36 @@ Fixpoint process_cmds (bo : nat) (stops : list Z) (cs : list command) (st : ssto
 Definition run_tick (bo : nat) (stops : list Z) (r : res (list command)) (st : sstore) : sstore * option outcome :=
   match r with Err c => (st, Some (OEngineExc c)) | Ok cs => process_cmds bo stops cs st end.
 
-Fixpoint run_ticks (bo : nat) (stops : list Z) (rs : list (res (list command))) (st : sstore)
+(* _IdleReleaseInternalRunAdapter.on_tick (repaired behaviour, commit 256c25e): a run that announced idle and
+   then processes another tick (not the idle check itself) clears idle_since first; a failing write is logged
+   and swallowed.  `marked` is the adapter's _marked_idle flag.  on_tick is only reached when the reducer did
+   not raise. *)
+Definition on_tick_clear (marked ic : bool) (r : res (list command)) (st : sstore) : sstore * bool :=
+  match r with
+  | Ok _ => if marked && negb ic then (fst (idle_write false st), false) else (st, marked)
+  | Err _ => (st, marked)
+  end.
+Definition is_pidle (c : command) : bool := match c with CPublish PIdle => true | _ => false end.
+Definition marks (r : res (list command)) : bool :=
+  match r with Ok cs => existsb is_pidle cs | Err _ => false end.
+
+(* a tick as the server sees it: is it the TickIdleCheck, and what the reducer made of it *)
+Definition stick := (bool * res (list command))%type.
+
+Definition run_tick_m (bo : nat) (stops : list Z) (marked : bool) (tk : stick) (st : sstore)
+  : sstore * bool * option outcome :=
+  let '(st1, m1) := on_tick_clear marked (fst tk) (snd tk) st in
+  let '(st2, o) := run_tick bo stops (snd tk) st1 in
+  (st2, m1 || marks (snd tk), o).
+
+Fixpoint run_ticks (bo : nat) (stops : list Z) (marked : bool) (rs : list stick) (st : sstore)
   : sstore * option outcome :=
   match rs with
   | [] => (st, None)
-  | r :: t => match run_tick bo stops r st with
-              | (st', Some o) => (st', Some o)
-              | (st', None) => run_ticks bo stops t st'
-              end
+  | tk :: t => match run_tick_m bo stops marked tk st with
+               | (st', _, Some o) => (st', Some o)
+               | (st', m', None) => run_ticks bo stops m' t st'
+               end
   end.
 
 (* how the run task ended, as the service sees it *)
@@ -211,10 +233,10 @@ Definition finish_run (bo : nat) (r : sstore * option outcome) : sstore * option
 Definition start_handler (bo : nat) (st : sstore) : sstore * bool :=
   retry_status bo (fun _ => Some new_handler) CallInit st.
 
-Definition server_run (bo : nat) (stops : list Z) (rs : list (res (list command))) (st : sstore)
+Definition server_run (bo : nat) (stops : list Z) (rs : list stick) (st : sstore)
   : sstore * option outcome :=
   let '(st0, ok) := start_handler bo st in
-  if ok then finish_run bo (run_ticks bo stops rs st0) else (st0, None).
+  if ok then finish_run bo (run_ticks bo stops false rs st0) else (st0, None).
 
 (* which status the property demands for an ended run *)
 Definition demanded (o : outcome) : option status :=
@@ -253,8 +275,8 @@ Fixpoint cmds_wf (stops : list Z) (pending : option tkind) (l : list command) : 
     end
   end.
 
-Definition tick_wf (stops : list Z) (r : res (list command)) : Prop :=
-  match r with Err _ => True | Ok cs => cmds_wf stops None cs end.
+Definition tick_wf (stops : list Z) (tk : stick) : Prop :=
+  match snd tk with Err _ => True | Ok cs => cmds_wf stops None cs end.
 
 (* ticks whose user-supplied events are not themselves StopEvents: a step that puts a StopEvent on the
    stream by hand (ctx.write_event_to_stream / waiter_event) is outside the property's domain *)
@@ -273,7 +295,7 @@ Definition tick_clean (stops : list Z) (t : tick) : bool :=
 Inductive phase := PhNone      (* no control loop: not started, released, server stopped or crashed *)
                  | PhActive    (* a control loop is running for this run id *)
                  | PhEnded.    (* the run task has finished in this process *)
-Record sys := { y_store : sstore ; y_phase : phase }.
+Record sys := { y_store : sstore ; y_phase : phase ; y_marked : bool (* _marked_idle of the live adapter *) }.
 
 (* what context_from_ticks found *)
 Inductive replayed := RNone | RErr (code : Z) | RExit (c : option command).
@@ -290,7 +312,7 @@ Definition finalize_of (c : command) : option (status * option event * option he
 
 Inductive sop :=
 | OpStart                          (* _WorkflowService.start_workflow for a fresh run id *)
-| OpTick (r : res (list command))  (* one tick of the active control loop *)
+| OpTick (tk : stick)              (* one tick of the active control loop *)
 | OpSend                           (* _WorkflowService.send_event / cancel_handler -> adapter.send_event *)
 | OpRelease                        (* idle release, server stop or crash: the loop is aborted *)
 | OpServerStart (r : replayed).    (* PersistenceDecorator._on_server_start reaches this handler *)
@@ -302,22 +324,24 @@ Definition start_write (s : status) (r : option event) (e : option herror) (st :
   if ok then st1
   else fst (attempt_status (option_map (upd_status (Some SFailed) None (Some EStore) None)) (CallStatus SFailed) st1).
 
+Definition mk_sys (st : sstore) (ph : phase) (m : bool) : sys := {| y_store := st ; y_phase := ph ; y_marked := m |}.
+
 Definition step_op (bo : nat) (stops : list Z) (o : sop) (y : sys) : sys :=
   let st := y_store y in
   match o with
   | OpStart =>
     match s_rec st, y_phase y with
     | None, PhNone => let '(st', ok) := start_handler bo st in
-                      {| y_store := st' ; y_phase := if ok then PhActive else PhNone |}
+                      mk_sys st' (if ok then PhActive else PhNone) false
     | _, _ => y
     end
-  | OpTick r =>
+  | OpTick tk =>
     match y_phase y with
     | PhActive =>
-      match run_tick bo stops r st with
-      | (st', Some OIdleReleased) => {| y_store := st' ; y_phase := PhNone |}
-      | (st', Some oc) => {| y_store := watcher bo oc st' ; y_phase := PhEnded |}
-      | (st', None) => {| y_store := st' ; y_phase := PhActive |}
+      match run_tick_m bo stops (y_marked y) tk st with
+      | (st', m', Some OIdleReleased) => mk_sys st' PhNone m'
+      | (st', m', Some oc) => mk_sys (watcher bo oc st') PhEnded m'
+      | (st', m', None) => mk_sys st' PhActive m'
       end
     | _ => y
     end
@@ -325,28 +349,28 @@ Definition step_op (bo : nat) (stops : list Z) (o : sop) (y : sys) : sys :=
     match rec_status st with
     | Some SRunning =>                 (* resolve_handler: terminal -> HandlerCompletedError, absent -> not found *)
       match y_phase y with
-      | PhNone => {| y_store := fst (idle_write false st) ; y_phase := PhActive |}   (* reload, then idle_since=None *)
-      | ph => {| y_store := fst (idle_write false st) ; y_phase := ph |}
+      | PhNone => mk_sys (fst (idle_write false st)) PhActive false   (* reload (fresh adapter), then idle_since=None *)
+      | ph => mk_sys (fst (idle_write false st)) ph (y_marked y)
       end
     | _ => y
     end
   | OpRelease =>
-    match y_phase y with PhActive => {| y_store := st ; y_phase := PhNone |} | _ => y end
+    match y_phase y with PhActive => mk_sys st PhNone (y_marked y) | _ => y end
   | OpServerStart r =>
     match y_phase y, s_rec st with
     | PhActive, _ => y                                  (* run_id in _active_run_ids: skipped *)
     | ph, Some h =>
       if is_terminal (h_status h) || h_idle h then y    (* query: status running, not idle *)
       else match r with
-           | RNone => {| y_store := start_write SFailed None (Some ENoState) st ; y_phase := ph |}
-           | RErr c => {| y_store := fst (attempt_status (option_map (upd_status (Some SFailed) None (Some (EEngine c)) None))
-                                                         (CallStatus SFailed) st) ; y_phase := ph |}
+           | RNone => mk_sys (start_write SFailed None (Some ENoState) st) ph (y_marked y)
+           | RErr c => mk_sys (fst (attempt_status (option_map (upd_status (Some SFailed) None (Some (EEngine c)) None))
+                                                   (CallStatus SFailed) st)) ph (y_marked y)
            | RExit (Some c) =>
              match finalize_of c with
-             | Some (s, res, e) => {| y_store := start_write s res e st ; y_phase := ph |}
-             | None => {| y_store := st ; y_phase := PhActive |}
+             | Some (s, res, e) => mk_sys (start_write s res e st) ph (y_marked y)
+             | None => mk_sys st PhActive false
              end
-           | RExit None => {| y_store := st ; y_phase := PhActive |}
+           | RExit None => mk_sys st PhActive false
            end
     | _, None => y
     end
@@ -356,10 +380,10 @@ Definition run_sops (bo : nat) (stops : list Z) (ops : list sop) (y : sys) : sys
   fold_left (fun y o => step_op bo stops o y) ops y.
 
 Definition sys0 (fl : faults) : sys :=
-  {| y_store := {| s_rec := None ; s_fl := fl ; s_trace := [] |} ; y_phase := PhNone |}.
+  {| y_store := {| s_rec := None ; s_fl := fl ; s_trace := [] |} ; y_phase := PhNone ; y_marked := false |}.
 
 Definition op_wf (stops : list Z) (o : sop) : Prop :=
-  match o with OpTick r => tick_wf stops r | _ => True end.
+  match o with OpTick tk => tick_wf stops tk | _ => True end.
 
 (* fault streams in which no more than `bo` attempts in a row fail (k = failures already seen in the current row) *)
 Fixpoint tolerable (bo k : nat) (l : list bool) : bool :=
